@@ -193,32 +193,39 @@ def sortedObjs (w : World ByteArray) : List (Digest × Obj ByteArray) :=
 
 def isBlob : Obj ByteArray → Bool | .blob _ => true | _ => false
 
-/-- rewrite every manifest in the old schema, bottom-up; returns the digest renaming -/
-partial def toOldSchema (w : World ByteArray) : World ByteArray × List (Digest × Digest) := Id.run do
-  -- iterate until no new-schema manifest is left whose children are all renamed
+/-- rewrite the manifests in the old schema, bottom-up; `sel = none`: all of them, `some cs`: those whose
+(original) digest starts with one of the characters `cs` — the others keep their schema and are only
+re-keyed when one of their children was. Returns the digest renaming. -/
+partial def toOldSchema (w : World ByteArray) (sel : Option String) : World ByteArray × List (Digest × Digest) := Id.run do
+  let selected := fun (d : Digest) => match sel with
+    | none => true
+    | some cs => (d.toList.head?.map fun c => cs.toList.contains c).getD false
   let mut store := w.store
   let mut ren : List (Digest × Digest) := []
+  let mut done : List Digest := []          -- keys (after re-keying) of the manifests already processed
   let mut changed := true
   while changed do
     changed := false
     for (d, o) in (storeKeys store).filterMap (fun d => (store.get d).map (d, ·)) do
       match o with
-      | .man .new p cs =>
-        -- children that are directories must already be old (or leaf dirs)
-        let ready := cs.all fun c => !c.isDir || (match store.get c.sum with
-          | some (.man .old _ _) => true
-          | some (.man .new _ _) => false
+      | .man sch p cs =>
+        if done.contains d then continue
+        -- children that are directories must have been processed already
+        let ready := cs.all fun c => !c.isDir || done.contains c.sum || (match store.get c.sum with
+          | some (.man _ _ _) => false
           | _ => true)
-        if ready && !(ren.any (·.1 == d)) then
-          let o' : Obj ByteArray := .man .old p cs
+        if ready then
+          let o' : Obj ByteArray := .man (if selected d then .old else sch) p cs
           let d' := o'.digest theCtx
-          -- replace the object and re-point parents
-          store := (store.filter (·.1 != d)).map fun (k, v) =>
-            match v with
-            | .man s p2 cs2 => (k, .man s p2 (cs2.map fun c => if c.sum == d then { c with sum := d' } else c))
-            | b => (k, b)
-          store := store.put d' o'
-          ren := (d, d') :: ren
+          if d' != d then
+            -- replace the object and re-point parents
+            store := (store.filter (·.1 != d)).map fun (k, v) =>
+              match v with
+              | .man s p2 cs2 => (k, .man s p2 (cs2.map fun c => if c.sum == d then { c with sum := d' } else c))
+              | b => (k, b)
+            store := store.put d' o'
+            ren := (d, d') :: ren
+          done := d' :: done
           changed := true
           break
       | _ => pure ()
@@ -393,7 +400,10 @@ def applyOp (toks : List String) (w : World ByteArray) : Except Err (World ByteA
     let ws := keep.foldl (fun (ws : Node ByteArray) d => (setPath ws (Path.comps (unhex d)) (.dir [])).getD ws) (.dir [])
     (.ok { w with ws := ws }, #[])
   | ["oldschema"] =>
-    let (w', ren) := toOldSchema w
+    let (w', ren) := toOldSchema w none
+    (.ok w', (ren.map fun (a, b) => s!"x {a} {b}").toArray)
+  | ["oldschema", sel] =>
+    let (w', ren) := toOldSchema w (some sel)
     (.ok w', (ren.map fun (a, b) => s!"x {a} {b}").toArray)
   | _ => (.error .invalid, #[])
 
